@@ -47,6 +47,15 @@ func (P *Prog) classify(fn *ssa.Function, fi *fnInfo) {
 		}
 	}
 	fi.inRepo = strings.HasPrefix(pkgPath, P.modPath)
+	if fi.inRepo {
+		f := fn
+		for f.Parent() != nil {
+			f = f.Parent()
+		}
+		if f.Pos().IsValid() && strings.Contains(P.prog.Fset.Position(f.Pos()).Filename, "zz_verif_") {
+			fi.inRepo = false // harness code
+		}
+	}
 	if pkgPath == P.harnessPkg && fn.Parent() == nil && fn.Signature.Recv() == nil {
 		if f, ok := harnessAPI[fn.Name()]; ok {
 			fi.intrinsic = f
